@@ -34,6 +34,10 @@ def run(ctx: Ctx) -> None:
         "before the results are summed (so the in-place log1p of the LE "
         "variant cannot leak into a later call); D11.4 every return of "
         "evaluate is the literal 1e200 or guarded by 0 <= v <= 1e100; "
+        "D11.6 every field some method grows (append/extend/insert/+=) is "
+        "emptied by initialize() on every path on which it is a list, the "
+        "two collections are appended to in the same block, and initialize() "
+        "unconditionally returns to real-system mode; "
         "D11.5 in SurrogateOptimizer.solve the disabling of initialize() "
         "and the model mode are each closed again on every normal path "
         "before the loop repeats and before process.evaluate runs. Not "
@@ -42,7 +46,9 @@ def run(ctx: Ctx) -> None:
                      ("D11.2", "(equations, collect) pairing"),
                      ("D11.3", "results written before summed"),
                      ("D11.4", "returned values in [0,1e100] or 1e200"),
-                     ("D11.5", "surrogate optimizer restores real mode")):
+                     ("D11.5", "surrogate optimizer restores real mode"),
+                     ("D11.6", "initialize() restores the freshly created "
+                               "state")):
         ctx.rule(rid, txt)
     repo = ctx.repo
     fom = repo.cls(OBJ, "FigureOfMerit")
@@ -52,6 +58,7 @@ def run(ctx: Ctx) -> None:
     _results_written(ctx, fom)
     _returns(ctx, fom)
     _surrogate(ctx)
+    _reset(ctx, fom, le)
     ctx.assumptions += [
         "controllers and system equations do not mutate their inputs "
         "(C16 D16.6)",
@@ -464,3 +471,125 @@ def _surrogate(ctx: Ctx) -> None:
     ctx.ob("D11.5", sv, evs[0].ast if evs else sv.node, bool(evs),
            "real evaluations go through process.evaluate",
            construct="process.evaluate present", nontrivial=False)
+
+
+# ------------------------------------------------------------------ D11.6
+def _none_class(init: FuncInfo) -> dict[str, str]:
+    """field -> text of the condition under which it is None (or '')."""
+    out: dict[str, str] = {}
+    for n in ast.walk(init.node):
+        if isinstance(n, (ast.Assign, ast.AnnAssign)) and n.value is not None:
+            f = _self_attr(n.targets[0] if isinstance(n, ast.Assign)
+                           else n.target)
+            if f is None:
+                continue
+            v = n.value
+            if isinstance(v, ast.IfExp) and isinstance(
+                    v.orelse, ast.Constant) and v.orelse.value is None:
+                out[f] = ast.unparse(v.test)
+            elif isinstance(v, (ast.List, ast.ListComp)):
+                out[f] = ""
+    return out
+
+
+def _reset(ctx: Ctx, fom: ClassInfo, le: ClassInfo) -> None:
+    init = fom.methods["__init__"]
+    ini = fom.methods.get("initialize")
+    ctx.need(ini is not None, "FigureOfMerit.initialize")
+    nclass = _none_class(init)
+    grown: dict[str, list[tuple[FuncInfo, ast.AST]]] = {}
+    for cls in (fom, le):
+        for m in cls.methods.values():
+            for n in ast.walk(m.node):
+                f = None
+                if isinstance(n, ast.Call) and isinstance(
+                        n.func, ast.Attribute) and n.func.attr in (
+                        "append", "extend", "insert"):
+                    f = _self_attr(n.func.value)
+                elif isinstance(n, ast.AugAssign) and isinstance(
+                        n.op, ast.Add):
+                    f = _self_attr(n.target)
+                    if f is not None and f not in nclass:
+                        f = None          # a numeric accumulator
+                if f is not None:
+                    grown.setdefault(f, []).append((m, n))
+    ctx.floor("growing_fields", len(grown), 2)
+    # ---- what initialize() empties, and under which guard
+    cleared: dict[str, str | None] = {}
+
+    def scan(stmts: list[ast.stmt], guard: str | None, deep: bool) -> None:
+        for st in stmts:
+            if isinstance(st, ast.Expr) and isinstance(
+                    st.value, ast.Call) and isinstance(
+                    st.value.func, ast.Attribute) and \
+                    st.value.func.attr == "clear":
+                f = _self_attr(st.value.func.value)
+                if f is not None and not deep:
+                    cleared.setdefault(f, guard)
+            elif isinstance(st, (ast.Assign, ast.AnnAssign)) and isinstance(
+                    st.value, ast.List) and not st.value.elts:
+                f = _self_attr(st.targets[0] if isinstance(st, ast.Assign)
+                               else st.target)
+                if f is not None and not deep:
+                    cleared.setdefault(f, guard)
+            elif isinstance(st, ast.If) and guard is None and not st.orelse:
+                t = st.test
+                g = None
+                if isinstance(t, ast.Compare) and len(t.ops) == 1 and \
+                        isinstance(t.ops[0], ast.IsNot) and isinstance(
+                        t.comparators[0], ast.Constant) and \
+                        t.comparators[0].value is None:
+                    g = _self_attr(t.left)
+                elif _self_attr(t) is not None:
+                    g = _self_attr(t)        # `if self.__x:` non-empty
+                if g is not None:
+                    scan(st.body, g, False)
+                else:
+                    scan(st.body, "?", True)
+    scan(func_body(ini), None, False)
+    for f, sites in sorted(grown.items()):
+        g = cleared.get(f, "missing")
+        ok = g is None or (g != "missing" and (
+            g == f or (g in nclass and f in nclass
+                       and nclass[g] == nclass[f] and nclass[g] != "")))
+        m, n = sites[0]
+        ctx.ob("D11.6", ini, ini.node, ok,
+               f"`self.{f}` (grown in {m.name}) is emptied by initialize()"
+               + ("" if g is None else f" whenever it is a list (guard on "
+                  f"`self.{g}`, None under the same condition)")
+               if ok else
+               f"`self.{f}` is grown in {m.name} (line {n.lineno}) but "
+               "initialize() does not empty it"
+               + ("" if g == "missing" else
+                  f" on every path (guarded by `self.{g}`)")
+               + ": a re-used objective keeps the samples of the previous "
+               "run, unlike a freshly created one",
+               construct=f"initialize empties {f}")
+    # ---- the collections grow together
+    if len(grown) >= 2:
+        fields = sorted(grown)
+        blocks_ok = True
+        for m in {id(s[0]): s[0] for ss in grown.values()
+                  for s in ss}.values():
+            per_block = []
+            for b in _blocks(m.node):
+                fs = sorted({f for f in fields for st in b
+                             if isinstance(st, ast.Expr) and any(
+                                 x is st.value for (_, x) in grown[f])})
+                if fs:
+                    per_block.append(fs)
+            if any(fs != fields for fs in per_block):
+                blocks_ok = False
+        ctx.ob("D11.6", ini, ini.node, blocks_ok,
+               f"the collections {fields} are appended to in the same "
+               "block: their lengths agree" if blocks_ok else
+               f"the collections {fields} are not appended to together",
+               construct="collections grow together")
+    # ---- back to real mode, unconditionally
+    top = [st for st in func_body(ini) if isinstance(st, ast.Expr)
+           and isinstance(st.value, ast.Call) and ast.unparse(
+               st.value.func) == "self.set_raw"]
+    ctx.ob("D11.6", ini, top[0] if top else ini.node, bool(top),
+           "initialize() unconditionally switches to the real system "
+           "(set_raw)" if top else "initialize() does not return to the "
+           "real-system mode", construct="initialize calls set_raw")
